@@ -17,15 +17,26 @@ ASSUME = [
 ]
 
 
+STATS = {}
+
+
 def spec_c16(impl, scn):
-    return spec.check(impl, scn)
+    """the monitor, plus its counters per scenario family (first letter of the scenario id: x / y
+    exhaustive cuts, r random, s stop, u reuse): how often each clause was really evaluated"""
+    fails, st = spec.check_stats(impl, scn)
+    fam = scn[3:4] if scn.startswith("== ") else "?"
+    for k, v in st.items():
+        STATS["%s.%s" % (fam, k)] = STATS.get("%s.%s" % (fam, k), 0) + v
+    return fails
 
 
 CHECK = ScenarioCheck(
     "C16", ["SimVerif.Props.C16"], "kernel", gen.generate, spec_c16, spec.nontrivial,
-    "one real sim::http_server per scenario (keep-alive on/off; content, big content, redirect, stall, fixed-body handlers, re-registration) and 1-4 successive or overlapping clients, each sending a pipeline of 1-5 requests (registered / unknown / normalised / redirect / ranged / stalled paths, `Connection: close` in 5 spellings and 3 near-misses, oversized headers that force the receive buffer to grow, malformed requests and Range values, a truncated last request) cut into composed writes: exhaustively at every single cut position of short pipelines and at every pair of positions in a window around a request boundary, randomly otherwise; writes back to back or spaced 0-150 ms by timers; read buffers 16 B-64 kB; networks with NAT, multi-homed nodes, small MTU, scripted and tail drops (retransmission); clients closing early; stop() at an arbitrary event boundary or time followed by a connect that must be refused and a new acceptor / new server on the same port; unread pipelined bytes left behind a closing connection before the next client; non-trivial = a client received at least one response; distinct = distinct implementation trace",
+    "one real sim::http_server per scenario (keep-alive on/off; content, big content, redirect, stall, fixed-body handlers, re-registration) and 1-4 successive or overlapping clients, each sending a pipeline of 1-5 requests (registered / unknown / normalised / redirect / ranged / stalled paths, `Connection: close` in 5 spellings and 3 near-misses, oversized headers that force the receive buffer to grow, malformed requests and Range values, a truncated last request) cut into composed writes: exhaustively at every single cut position of five short pipelines and at every pair of positions in a window around the first request boundary of each of them (the cut client never closes, so that every response and the end-of-file are demanded at every cut; a follower behind every connection the server closes by itself), exactly at the request boundaries with 3-150 ms in between (sequential keep-alive use), randomly otherwise; writes back to back or spaced 0-150 ms by timers; read buffers 16 B-64 kB; networks with NAT, multi-homed nodes, small MTU, scripted and tail drops (retransmission); clients closing early; stop() at an arbitrary event boundary (after handler 1..399) or time (0-2.5 s) — with malformed requests, bad ranges, stalled paths, a truncated last request, lossy networks, a second pipelining client and the reuse situation around — followed by a connect that must be refused and a new acceptor / new server on the same port; unread pipelined bytes left behind a closing connection before the next client; non-trivial = a client received at least one response; distinct = distinct implementation trace; monitor_stats = how often the clauses were really evaluated per family (complete = every response / end-of-file demanded; stop_open_<kind> = connection present when stop() came; stop_then_eof_<kind> = closed by the server while stopping)",
     TRUSTED, ASSUME, spec_scn=True)
+CHECK.extra_cov = lambda results: dict(monitor_stats=dict(sorted(STATS.items())))
 
 
 def run(tier, seed, replay):
+    STATS.clear()
     return CHECK.run(tier, seed, replay)
